@@ -264,8 +264,9 @@ set_option maxRecDepth 100000 in
 theorem tableA_domain : (callsA.filter (fun c => inDomain docA [c])).length = 81 := by decide +kernel
 
 set_option maxRecDepth 100000 in
-/-- 36 of the 84 third calls of table C lie in the domain -/
-theorem tableC_domain : (callsC.filter (fun c => inDomain docC (preC ++ [c]))).length = 36 := by decide +kernel
+/-- 69 of the 84 third calls of table C lie in the domain (36 before the repair of c19-findpos-after-element, 74247a0f: the second
+    call of the prefix, `Edit(3,7)`, has its end right after `</b>` and right before "de" and used to delete "de" as well) -/
+theorem tableC_domain : (callsC.filter (fun c => inDomain docC (preC ++ [c]))).length = 69 := by decide +kernel
 
 set_option maxRecDepth 100000 in
 /-- a replace inside a text, a delete over mixed siblings and an inline element inside a text are in the domain -/
